@@ -750,8 +750,14 @@ def bnorm(b, F):
             # ite on boundary index inside template -> split
             sp = _split_map_ite(p, F)
             if sp is not None:
-                for q in bnorm(sp, F):
-                    out.append(q)
+                _SPLIT_DEPTH[0] += 1
+                try:
+                    if _SPLIT_DEPTH[0] > 64:
+                        raise Undecided("map with an index condition does not split into finitely many ranges")
+                    for q in bnorm(sp, F):
+                        out.append(q)
+                finally:
+                    _SPLIT_DEPTH[0] -= 1
                 continue
             c = _collapse_map(p, F)
             if c is not None:
@@ -788,6 +794,9 @@ def bnorm(b, F):
 
 def bequal_syn(a, b):
     return a == b
+
+
+_SPLIT_DEPTH = [0]
 
 
 def _find_index_cond(t, var):
@@ -860,7 +869,10 @@ def _split_map_ite(p, F):
     split = val if co == 1 else val + 1
     if not (F.le(lo, split) and F.le(split, hi)):
         return None
-    return tuple(part(lo, split, [])) + tuple(part(split, hi, []))
+    res = tuple(part(lo, split, [])) + tuple(part(split, hi, []))
+    if p in res:
+        return None          # no progress (split point on a boundary, condition left undecided)
+    return res
 
 
 # ------------------------------------------------------------------ xor
